@@ -262,6 +262,56 @@ fn judge_histories<'a>(b: &'a [u8], mut it: Compound<'a>, tiles: &[(usize, usize
         judge_adaptors(b, &w, t, v);
     }
 
+    // history 6: a bystander on the same thread.  Between the calls on our iterator other
+    // datagrams are parsed (and walked): one the length chain partitions, one that is turned
+    // down only after several whole packets with other boundaries (a damaged datagram, a probe
+    // into a payload for a nested compound).  What happens to another datagram is not part of
+    // what this one contains.
+    if t.choose(4) == 3 {
+        const OTHER_OK: &[u8] = &[0x80, 203, 0, 0, 0x81, 203, 0, 1, 0, 0, 0, 7, 0x80, 201, 0, 1, 0, 0, 0, 9];
+        const OTHER_BAD: &[u8] = &[
+            0x80, 203, 0, 0, 0x80, 203, 0, 0, 0x81, 203, 0, 1, 0, 0, 0, 7, 0x80, 203, 0, 0, 0x80, 201, 0, 1, 0, 0, 0, 9, 0x80, 203, 0, 0, 0x80, 203, 0, 0, 0x80, 204, 0, 9, 1, 2, 3, 4,
+        ];
+        let w: Vec<u64> = want.iter().map(|x| x.0).collect();
+        let mut a = Compound::parse(b).unwrap();
+        let mut got: Vec<u64> = Vec::new();
+        let mut nones = 0usize;
+        let mut steps = 0usize;
+        while nones < 2 && steps < tiles.len() + 6 {
+            steps += 1;
+            v.events += 1;
+            match t.choose(4) {
+                0 => {}
+                1 => {
+                    let _ = Compound::parse(OTHER_BAD).is_ok();
+                }
+                2 => {
+                    if let Ok(mut o) = Compound::parse(OTHER_OK) {
+                        let _ = o.next().map(|r| r.is_ok());
+                    }
+                }
+                _ => {
+                    let _ = Compound::parse(&OTHER_BAD[..OTHER_BAD.len() - 5]).is_ok();
+                    let _ = Compound::parse(OTHER_OK).map(|o| o.count());
+                }
+            }
+            match a.next() {
+                Some(r) => {
+                    if nones > 0 {
+                        v.violation = Some(("Iter:some_after_end".into(), "with other datagrams parsed in between, the iterator yielded after returning None".into()));
+                        return;
+                    }
+                    got.push(render(&r));
+                }
+                None => nones += 1,
+            }
+        }
+        if got != w {
+            v.violation = Some(("Iter:beside_differs".into(), format!("with other datagrams parsed between its calls the iterator yielded {} items, expected {} (or an item differs)", got.len(), w.len())));
+            return;
+        }
+    }
+
     // history 5: the iterator is handed to another thread part-way (a view is `Send`: parse on the
     // I/O thread, process on a worker).  The other thread has a compound of its own, with other
     // boundaries, alive at that moment.  Nothing runs concurrently: the thread is joined at once.
